@@ -116,6 +116,23 @@ def optBits : Option Float → String
   | some x => floatBits x
   | none => "none"
 
+/-! real motion validators: C05's `Motion.checkMotion2/3` (which indices are asked, counters, failAt) composed with this engine's
+interpolation on the cached path; `L` (longest valid segment length) is a recorded answer -/
+
+def showMV (r : OmplModel.Motion.Result) (n : Nat) (havePath : Bool) (lseg : Float) (showAt : Nat → String) (lvState : Float → String) : String :=
+  let qs := r.queries.map showAt
+  let lv := match r.failAt with
+    | some j => if havePath then
+        let t := Float.ofInt ((j : Int) - 1) / Float.ofNat n
+        floatBits t ++ ":" ++ lvState t
+      else "none"
+    | none => "none"
+  "res=" ++ (if r.verdict then "1" else "0") ++ " nd=" ++ (if havePath then toString n else "-") ++ " L=" ++ floatBits lseg ++
+    " q=" ++ toString qs.length ++ " " ++ (if qs.isEmpty then "-" else ";".intercalate qs) ++ " lv=" ++ lv ++
+    " dv=" ++ toString r.dValid ++ " di=" ++ toString r.dInvalid
+
+def show3 (P : Pose Float) : String := ",".intercalate [floatBits P.x, floatBits P.y, floatBits P.th]
+
 def stepRS (st : St) (ts : List String) : St × String :=
   match ts with
   | ["rspath", a, b, c, d, e, f] =>
@@ -132,6 +149,22 @@ def stepRS (st : St) (ts : List String) : St × String :=
       | some P => (st, showPose P)
       | none => (st, "none")
     | _, _, _ => (st, "bad-op")
+  | ["rsmvr", which, a, b, c, d, e, f, bound, lseg] =>
+    match pose? [a, b, c], pose? [d, e, f], parseFloatBits? bound, parseFloatBits? lseg with
+    | some s1, some s2, some bound, some lseg =>
+      match OmplModel.RS.reedsSheppStates st.rho s1 s2 with
+      | none => (st, "nopath")
+      | some P =>
+        let n := OmplModel.Motion.segCount 1 (st.rho * P.len) lseg
+        -- every index asked by the validator is interior, so the first call stores the path; all states come from it
+        let stateAt (j : Nat) : Pose Float := if j == n then s2 else OmplModel.RS.rsInterpPath st.rho s1 P (Float.ofNat j / Float.ofNat n)
+        let v (j : Nat) : Bool := decide ((stateAt j).x ≤ bound)
+        let r := if which == "2" then OmplModel.Motion.checkMotion2 .reedsShepp true n v else OmplModel.Motion.checkMotion3 .reedsShepp true n v
+        -- lastValid: through the cached path once an interior call happened (n > 1), else the uncached endpoint shortcut
+        let lvS (t : Float) : String := show3 (if n > 1 then OmplModel.RS.rsInterpPath st.rho s1 P t else (if 1 ≤ t then s2 else if t ≤ 0 then s1 else
+          OmplModel.RS.rsInterpPath st.rho s1 P t))
+        (st, showMV r n true lseg (fun j => show3 (stateAt j)) lvS)
+    | _, _, _, _ => (st, "bad-op")
   | "rscache" :: a :: b :: c :: d :: e :: f :: rest =>
     match pose? [a, b, c], pose? [d, e, f], takeCounted rest with
     | some s1, some s2, some (xs, []) =>
@@ -147,6 +180,13 @@ def stepRS (st : St) (ts : List String) : St × String :=
       match OmplModel.RS.reedsSheppStates st.rho s1 s2 with
       | some p => (st, showPose (OmplModel.RS.rsInterpPath st.rho s1 p 1))
       | none => (st, "nopath")
+    | _, _ => (st, "bad-op")
+  | ["bothfix", a, b, c, d, e, f] =>
+    -- Reeds-Shepp distances both ways as the code repaired as in notes/C14-fix-F67.diff (ZERO = 1e-12) would return them (model only)
+    match pose? [a, b, c], pose? [d, e, f] with
+    | some s1, some s2 =>
+      (st, "rs=" ++ optBits (@OmplModel.RS.rsDistance Float OmplModel.RS.rsFix67 st.rho s1 s2) ++ " rsrev=" ++
+        optBits (@OmplModel.RS.rsDistance Float OmplModel.RS.rsFix67 st.rho s2 s1))
     | _, _ => (st, "bad-op")
   | ["both", a, b, c, d, e, f] =>
     match pose? [a, b, c], pose? [d, e, f] with
@@ -173,6 +213,14 @@ def stepD (st : St) (ts : List String) : St × String :=
       | some x => (st, "d=" ++ floatBits x)
       | none => (st, "d=none")
     | _, _ => (st, "bad-op")
+  | ["distfix", a, b, c, d, e, f] =>
+    -- what the code repaired as in notes/C14-fix-F66.diff would return (model only; the harness answers `bad-op`)
+    match pose? [a, b, c], pose? [d, e, f] with
+    | some s1, some s2 =>
+      match distanceFix66 st.rho st.sym s1 s2 with
+      | some x => (st, "d=" ++ floatBits x)
+      | none => (st, "d=none")
+    | _, _ => (st, "bad-op")
   | ["interp", a, b, c, d, e, f, t] =>
     match pose? [a, b, c], pose? [d, e, f], parseFloatBits? t with
     | some s1, some s2, some t =>
@@ -180,6 +228,20 @@ def stepD (st : St) (ts : List String) : St × String :=
       | some P => (st, showPose P)
       | none => (st, "none")
     | _, _, _ => (st, "bad-op")
+  | ["dmvr", which, a, b, c, d, e, f, bound, lseg] =>
+    match pose? [a, b, c], pose? [d, e, f], parseFloatBits? bound, parseFloatBits? lseg with
+    | some s1, some s2, some bound, some lseg =>
+      match choosePath st.rho st.sym s1 s2, distance st.rho st.sym s1 s2 with
+      | .path P, some dist =>
+        let n := OmplModel.Motion.segCount 1 dist lseg
+        let stateAt (j : Nat) : Pose Float := if j == n then s2 else interpPath st.rho s1 P (Float.ofNat j / Float.ofNat n)
+        let v (j : Nat) : Bool := decide ((stateAt j).x ≤ bound)
+        let r := if which == "2" then OmplModel.Motion.checkMotion2 .dubins true n v else OmplModel.Motion.checkMotion3 .dubins true n v
+        let lvS (t : Float) : String := show3 (if n > 1 then interpPath st.rho s1 P t else (if 1 ≤ t then s2 else if t ≤ 0 then s1 else
+          interpPath st.rho s1 P t))
+        (st, showMV r n true lseg (fun j => show3 (stateAt j)) lvS)
+      | _, _ => (st, "nopath")
+    | _, _, _, _ => (st, "bad-op")
   | "icache" :: a :: b :: c :: d :: e :: f :: rest =>
     match pose? [a, b, c], pose? [d, e, f], takeCounted rest with
     | some s1, some s2, some (xs, []) =>
@@ -341,6 +403,19 @@ def stepOwen (st : St) (ts : List String) : St × String :=
         " q=" ++ toString qs.length ++ " " ++ (if qs.isEmpty then "-" else ";".intercalate qs) ++ " lv=" ++ lv ++
         " dv=" ++ toString r.dValid ++ " di=" ++ toString r.dInvalid)
     | _, _, _, _ => (st, "bad-op")
+  | ["owbranch", a, b, c, d, e, f, g, h] =>
+    -- which branch of getPath the pair takes (model only): low / medium / high
+    match st4? [a, b, c, d], st4? [e, f, g, h] with
+    | some s1, some s2 =>
+      match OmplModel.Owen.dlen st.rho s1.pose s2.pose with
+      | none => (st, "nodubins")
+      | some P =>
+        let dz := s2.z - s1.z
+        let len := st.rho * P.len
+        if dz.abs ≤ len * st.tanp then (st, "low")
+        else if (len + (twopi : Float) * st.rho) * st.tanp < dz.abs then (st, "high")
+        else (st, "medium")
+    | _, _ => (st, "bad-op")
   | ["owinterpr", a, b, c, d, e, f, g, h, t, root] =>
     match st4? [a, b, c, d], st4? [e, f, g, h], parseFloatBits? t, parseFloatBits? root with
     | some s1, some s2, some t, some root =>
@@ -376,6 +451,21 @@ def stepVana (st : St) (ts : List String) : St × String :=
           " len=" ++ floatBits p.len)
       | none => (st, "nopath")
     | _, _ => (st, "bad-op")
+  | ["vmvr", which, a, b, c, d, e, f, g, h, i, j, bound, lseg] =>
+    match st5? [a, b, c, d, e], st5? [f, g, h, i, j], parseFloatBits? bound, parseFloatBits? lseg with
+    | some s1, some s2, some bound, some lseg =>
+      let path := OmplModel.Vana.getPath st.lastArc st.rho (-st.pitch) st.pitch vtol s1 s2
+      let n := match path with | some p => OmplModel.Motion.segCount 1 p.len lseg | none => 0
+      let at_ (t : Float) : OmplModel.Vana.St5 Float :=
+        match path with
+        | some p => if 1 ≤ t then s2 else if t ≤ 0 then s1 else OmplModel.Vana.interpPathV s1 p t
+        | none => s1
+      let stateAt (j : Nat) : OmplModel.Vana.St5 Float := if j == n then s2 else at_ (Float.ofNat j / Float.ofNat n)
+      let v (j : Nat) : Bool := decide ((stateAt j).z ≤ bound)
+      let r := if which == "2" then OmplModel.Motion.checkMotion2 .dubins3D path.isSome n v else OmplModel.Motion.checkMotion3 .dubins3D path.isSome n v
+      let sh (q : OmplModel.Vana.St5 Float) : String := ",".intercalate [floatBits q.x, floatBits q.y, floatBits q.z, floatBits q.pitch, floatBits q.yaw]
+      (st, showMV r n path.isSome lseg (fun j => sh (stateAt j)) (fun t => sh (at_ t)))
+    | _, _, _, _ => (st, "bad-op")
   | ["vinterp", a, b, c, d, e, f, g, h, i, j, t] =>
     match st5? [a, b, c, d, e], st5? [f, g, h, i, j], parseFloatBits? t with
     | some s1, some s2, some t =>
@@ -414,6 +504,21 @@ def voPath? : List String → Option (OmplModel.VanaOwen.VOPath Float)
 
 def stepVO (st : St) (ts : List String) : St × String :=
   match ts with
+  | "vomvr" :: which :: a :: b :: c :: d :: e :: f :: g :: h :: i :: j :: bound :: lseg :: rest =>
+    match st5? [a, b, c, d, e], st5? [f, g, h, i, j], parseFloatBits? bound, parseFloatBits? lseg with
+    | some s1, some s2, some bound, some lseg =>
+      let path := if rest == ["none"] then none else voPath? rest
+      let n := match path with | some p => OmplModel.Motion.segCount 1 p.len lseg | none => 0
+      let at_ (t : Float) : OmplModel.Vana.St5 Float :=
+        match path with
+        | some p => OmplModel.VanaOwen.voInterp s1 s2 t p
+        | none => s1
+      let stateAt (j : Nat) : OmplModel.Vana.St5 Float := if j == n then s2 else at_ (Float.ofNat j / Float.ofNat n)
+      let v (j : Nat) : Bool := decide ((stateAt j).z ≤ bound)
+      let r := if which == "2" then OmplModel.Motion.checkMotion2 .dubins3D path.isSome n v else OmplModel.Motion.checkMotion3 .dubins3D path.isSome n v
+      let sh (q : OmplModel.Vana.St5 Float) : String := ",".intercalate [floatBits q.x, floatBits q.y, floatBits q.z, floatBits q.pitch, floatBits q.yaw]
+      (st, showMV r n path.isSome lseg (fun j => sh (stateAt j)) (fun t => sh (at_ t)))
+    | _, _, _, _ => (st, "bad-op")
   | "vointerpr" :: a :: b :: c :: d :: e :: f :: g :: h :: i :: j :: t :: rest =>
     match st5? [a, b, c, d, e], st5? [f, g, h, i, j], parseFloatBits? t, voPath? rest with
     | some s1, some s2, some t, some p =>
